@@ -847,7 +847,11 @@ func runWithdrawCase(c withdrawCase) *fail {
 // --- fid recycling: sequences of walk / close / remove with confirmed and refused outcomes ---
 
 type fidCase struct {
-	Ops []string `json:"ops"` // walk | walkfail | close:<i> | closefail:<i> | remove:<i> | xattr | xattr-read | xattr-readfail | xattr-walkfail | xattr-clunkfail | xattr-list | xattr-listfail
+	Ops []string `json:"ops"` // walk | walkfail | close:<i> | closefail:<i> | remove:<i> | xattr | xattr-read | xattr-readfail | xattr-walkfail | xattr-clunkfail | xattr-list | xattr-listfail | wga | wga-getattrfail | wga-bothfail | wga-walkfail
+	// Offer is the version the fake server answers Tversion with ("" = the one the
+	// client asked for): below 9P2000.L.Google.2 the client has no Twalkgetattr and
+	// WalkGetAttr is a Twalk, a Tgetattr and, if that is refused, a Tclunk
+	Offer string `json:"offer,omitempty"`
 }
 
 func runFidCase(c fidCase) *fail {
@@ -876,9 +880,13 @@ func runFidCase(c fidCase) *fail {
 		if f := tr.onRequest(req); f != nil && bad == nil {
 			bad = f
 		}
+		if req.Type == refcodec.Tversion && c.Offer != "" {
+			tr.onReply(req, true)
+			return []*refcodec.Msg{refcodec.New(refcodec.Rversion, req.Tag, "msize", req.U("msize"), "version", c.Offer)}
+		}
 		ok := true
 		switch req.Type {
-		case refcodec.Twalk, refcodec.Tclunk, refcodec.Tremove, refcodec.Txattrwalk, refcodec.Tread:
+		case refcodec.Twalk, refcodec.Tclunk, refcodec.Tremove, refcodec.Txattrwalk, refcodec.Tread, refcodec.Twalkgetattr, refcodec.Tgetattr:
 			if len(decisions) > 0 {
 				ok, decisions = decisions[0], decisions[1:]
 			}
@@ -937,6 +945,21 @@ func runFidCase(c fidCase) *fail {
 		case "walkfail":
 			setDecisions(false)
 			root.Walk([]string{"x"})
+		case "wga", "wga-getattrfail", "wga-bothfail", "wga-walkfail":
+			old := c.Offer == "9P2000.L" || c.Offer == "9P2000.L.Google.1"
+			switch {
+			case kind == "wga":
+				setDecisions(true, true)
+			case kind == "wga-walkfail" || !old:
+				setDecisions(false)
+			case kind == "wga-getattrfail":
+				setDecisions(true, false, true) // walk, getattr, the clunk of the fid the walk bound
+			default:
+				setDecisions(true, false, false)
+			}
+			if _, f, _, _, err := root.WalkGetAttr([]string{"x"}); err == nil {
+				files = append(files, f)
+			}
 		case "xattr":
 			mu.Lock()
 			xsize = 0
@@ -1180,10 +1203,11 @@ func TestC10(t *testing.T) {
 		}
 	}
 	rapidCases(h, "fids", env.PerShard(env.Pick(1600, 100000)), func(rt *rapid.T) fidCase {
-		var c fidCase
+		c := fidCase{Offer: rapid.SampledFrom([]string{"", "", "9P2000.L", "9P2000.L.Google.1", "9P2000.L.Google.2", "9P2000.L.Google.4"}).Draw(rt, "offer")}
 		for i := rapid.IntRange(1, 30).Draw(rt, "n"); i > 0; i-- {
 			k := rapid.SampledFrom([]string{"walk", "walk", "walk", "walkfail", "close", "closefail", "remove", "xattr",
-				"xattr-read", "xattr-readfail", "xattr-walkfail", "xattr-clunkfail", "xattr-list", "xattr-listfail"}).Draw(rt, "op")
+				"xattr-read", "xattr-readfail", "xattr-walkfail", "xattr-clunkfail", "xattr-list", "xattr-listfail",
+				"wga", "wga-getattrfail", "wga-getattrfail", "wga-bothfail", "wga-walkfail"}).Draw(rt, "op")
 			if k == "close" || k == "closefail" || k == "remove" {
 				k = fmt.Sprintf("%s:%d", k, rapid.IntRange(0, 9).Draw(rt, "i"))
 			}
